@@ -710,7 +710,14 @@ impl InvalidLiquidToken<'_> {
         // Reparses from the line where invalid liquid started, in order
         // to raise the error.
         let mut error = match LiquidParser::parse(Rule::LiquidFile, &text) {
-            Ok(_) => panic!("`LiquidParser::parse` should fail in InvalidLiquidTokens."),
+            // The reconstructed text is only an approximation of the input (the column is
+            // counted in characters, not bytes) and may happen to be valid: still an error.
+            Ok(_) => {
+                return Err(error_from_pair(
+                    self.element,
+                    "Invalid liquid syntax.".to_owned(),
+                ));
+            }
             Err(error) => error,
         };
 
